@@ -85,17 +85,22 @@ def build_bins(names):
     return True, ""
 
 
-def gen_facts():
-    """Regenerate lean/ConfModel/Generated/Facts.lean from the tree (written only when the
-    content changes so that lake does not rebuild needlessly)."""
-    out = os.path.join(BUILD, "Facts.lean.new")
-    rc, log, dt = sh([HARNESS_BIN, "facts", "--out", out, "--repo", REPO], timeout=300)
-    if rc != 0:
+def gen_facts(cfg):
+    """Regenerate the property's lean/ConfModel/Generated/<X>.lean from the tree (facts, finite
+    tables): `verifharness <facts.area> --out tmp`; written only when the content changes so
+    that lake does not rebuild needlessly."""
+    fc = cfg["facts"]
+    out = os.path.join(BUILD, os.path.basename(fc["file"]) + ".new")
+    if os.path.exists(out):
+        os.remove(out)
+    rc, log, dt = sh([HARNESS_BIN, fc["area"], "--out", out, "--repo", REPO, "--work", BUILD, "--bin", BIN_DIR], timeout=600)
+    if rc != 0 or not os.path.exists(out):
         return False, log
-    dst = os.path.join(LEAN, "ConfModel", "Generated", "Facts.lean")
+    dst = os.path.join(LEAN, fc["file"])
     new = open(out).read()
     old = open(dst).read() if os.path.exists(dst) else None
     if new != old:
+        os.makedirs(os.path.dirname(dst), exist_ok=True)
         with open(dst, "w") as f:
             f.write(new)
     return True, ""
@@ -401,10 +406,11 @@ def setup():
             return 1
         okb, logb = build_bins(sorted({b for c in CHECKS.values() for b in c.get("bins", [])}))
         print("bins:", "ok" if okb else "FAILED\n" + logb)
-        if "facts" in open(os.path.join(VERIF, "harness", "cmd", "verifharness", "main.go")).read() or os.path.exists(os.path.join(VERIF, "harness", "cmd", "verifharness", "facts.go")):
-            okf, logf = gen_facts()
-            print("facts:", "ok" if okf else "FAILED\n" + logf)
-        ok2, log2 = lake_build([])
+        for pid, c in sorted(CHECKS.items()):
+            if c.get("facts"):
+                okf, logf = gen_facts(c)
+                print(f"facts {pid}:", "ok" if okf else "FAILED\n" + logf)
+        ok2, log2 = lake_build(["confdriver"] + sorted({c["module"] for c in CHECKS.values() if c.get("module")}))
         print("lake build:", "ok" if ok2 else "FAILED\n" + log2[-4000:])
         if not ok2:
             return 1
@@ -486,7 +492,7 @@ def run_check(pid, cfg, tier, seed, replay):
                 return finish(1)
         facts_ok = True
         if cfg.get("facts"):
-            facts_ok, flog = gen_facts()
+            facts_ok, flog = gen_facts(cfg)
             if not facts_ok:
                 p = write_replay(pid, "facts-unextractable", "facts could not be regenerated from the tree", seed, tier, [], {"log": flog[-6000:]})
                 violations.append((p, "no-failing-input-found"))
